@@ -201,84 +201,89 @@ Definition unchosen_penalty (td : json) : nat :=
 Definition assigned_penalty (ci : nat) (choices : list (nat * nat)) (td : json) : nat :=
   match find (fun ch : nat * nat => Nat.eqb (fst ch) ci) choices with Some ch => snd ch | None => unchosen_penalty td end.
 
+(* courses in key order; keep (sort_key, course) for offered ones, remember skipped ids *)
+Fixpoint goc (track_id : Z) (ign_c : bool) (ffield ofield : option string) (l : list (string * json))
+  : result (list (string * (rcourse * (option json * option json))) * list Z) :=
+  match l with
+  | [] => ROk ([], [])
+  | (k, c) :: t =>
+      let* cid := ok_or (parse_u64 k) 12 in
+      let* (name, st, mn, mx, key) := parse_course cid c track_id in
+      let skip := match st with NotOffered => true | Cancelled => ign_c | TakesPlace => false end in
+      let* fo := (if skip then ROk (None, None) else
+                  let* _ := ok_or (match get "fields" c with Some v => as_object v | None => None end) 13 in
+                  match get "fields" c with Some fl => ROk (num_field fl ffield, num_field fl ofield) | None => ROk (None, None) end) in
+      let* (cs, sk) := goc track_id ign_c ffield ofield t in
+      ROk (if skip then (cs, cid :: sk)
+           else ((key, ({| rc_dbid := cid; rc_name := name; rc_min := mn; rc_max := mx; rc_instr := []; rc_fixed := false;
+                           rc_hidden := []; rc_inv_instr := 0; rc_inv_att := 0 |}, fo)) :: cs, sk))
+  end.
+
+(* the registrations in key order; running state: next participant index, courses, participants so far (reversed), quality info of
+   the ignored pre-assigned registrations, their number *)
+Fixpoint gor (part_id track_id : Z) (cmap : list (Z * option nat)) (ign_a : bool) (_td : json)
+    (l : list (string * json)) (i : nat) (courses : list rcourse) (acc : list rpart) (q : nat * list nat) (nign : nat)
+  : result (list rpart * list rcourse * (nat * list nat) * nat) :=
+  match l with
+  | [] => ROk (rev acc, courses, q, nign)
+  | (k, reg) :: t =>
+      let* rid := ok_or (parse_u64 k) 15 in
+      (* extract_participant_base_data *)
+      let* rparts := ok_or (match get "parts" reg with Some v => as_object v | None => None end) 16 in
+      let* is_part := match assoc (zstr part_id) rparts with
+                      | Some p => match as_object p with
+                                  | Some _ => let* stz := ok_or (match get "status" p with Some v => as_i64 v | None => None end) 17 in ROk (stz =? 2)%Z
+                                  | None => ROk false end
+                      | None => ROk false end in
+      let* persona := ok_or (match get "persona" reg with Some v => match as_object v with Some _ => Some v | None => None end | None => None end) 18 in
+      let* gn := ok_or (match get "given_names" persona with Some v => as_str v | None => None end) 19 in
+      let* fn := ok_or (match get "family_name" persona with Some v => as_str v | None => None end) 19 in
+      let name := (gn ++ " " ++ fn)%string in
+      if negb is_part then gor part_id track_id cmap ign_a _td t i courses acc q nign else
+      let* d := parse_pcd reg track_id cmap in
+      match (if ign_a then pc_assigned d else None) with
+      | Some ci =>
+          let courses' := modify courses ci (fun c =>
+              {| rc_dbid := rc_dbid c; rc_name := rc_name c; rc_min := rc_min c; rc_max := rc_max c; rc_instr := rc_instr c; rc_fixed := rc_fixed c;
+                 rc_hidden := (rc_hidden c ++ [name])%list;
+                 rc_inv_instr := (match pc_instr d with Some c' => if Nat.eqb c' ci then S (rc_inv_instr c) else rc_inv_instr c | None => rc_inv_instr c end);
+                 rc_inv_att := (match pc_instr d with Some c' => if Nat.eqb c' ci then rc_inv_att c else S (rc_inv_att c) | None => S (rc_inv_att c) end) |}) dflt_c in
+          let q' := match pc_instr d with
+                    | Some c' => if Nat.eqb c' ci then (S (fst q), snd q) else (fst q, (snd q ++ [assigned_penalty ci (pc_choices d) _td])%list)
+                    | None => (fst q, (snd q ++ [assigned_penalty ci (pc_choices d) _td])%list) end in
+          gor part_id track_id cmap ign_a _td t i courses' acc q' (S nign)
+      | None =>
+          match pc_choices d, pc_instr d with
+          | [], None => gor part_id track_id cmap ign_a _td t i courses acc q nign
+          | _, _ =>
+              let courses' := match pc_instr d with
+                              | Some ci => modify courses ci (fun c =>
+                                  {| rc_dbid := rc_dbid c; rc_name := rc_name c; rc_min := rc_min c; rc_max := rc_max c; rc_instr := (rc_instr c ++ [i])%list;
+                                     rc_fixed := rc_fixed c; rc_hidden := rc_hidden c; rc_inv_instr := rc_inv_instr c; rc_inv_att := rc_inv_att c |}) dflt_c
+                              | None => courses end in
+              gor part_id track_id cmap ign_a _td t (S i) courses' ({| rp_dbid := rid; rp_name := name; rp_choices := pc_choices d |} :: acc) q nign
+          end
+      end
+  end.
+
 Definition read_fields (data : json) (track : option Z) (ign_c ign_a : bool) (ffield ofield : option string) : result (list rpart * list rcourse * ramb) :=
   let* _ := check_version data in
   let* _ts := ok_or (match get "timestamp" data with Some v => as_str v | None => None end) 9 in
   let* parts := ok_or (match get "event" data with Some ev => match as_object ev with Some _ => match get "parts" ev with Some p => as_object p | None => None end | None => None end | None => None end) 10 in
   let* (part_id, track_id, _td) := find_track parts track in
   let* cdata := ok_or (match get "courses" data with Some v => as_object v | None => None end) 11 in
-  (* courses in key order; keep (sort_key, course) for offered ones, remember skipped ids *)
-  let fix goc (l : list (string * json)) : result (list (string * (rcourse * (option json * option json))) * list Z) :=
-    match l with
-    | [] => ROk ([], [])
-    | (k, c) :: t =>
-        let* cid := ok_or (parse_u64 k) 12 in
-        let* (name, st, mn, mx, key) := parse_course cid c track_id in
-        let skip := match st with NotOffered => true | Cancelled => ign_c | TakesPlace => false end in
-        let* fo := (if skip then ROk (None, None) else
-                    let* _ := ok_or (match get "fields" c with Some v => as_object v | None => None end) 13 in
-                    match get "fields" c with Some fl => ROk (num_field fl ffield, num_field fl ofield) | None => ROk (None, None) end) in
-        let* (cs, sk) := goc t in
-        ROk (if skip then (cs, cid :: sk)
-             else ((key, ({| rc_dbid := cid; rc_name := name; rc_min := mn; rc_max := mx; rc_instr := []; rc_fixed := false;
-                             rc_hidden := []; rc_inv_instr := 0; rc_inv_att := 0 |}, fo)) :: cs, sk))
-    end in
-  let* (keyed, skipped) := goc (obj_items cdata) in
+  let* (keyed, skipped) := goc track_id ign_c ffield ofield (obj_items cdata) in
   let courses0 := map (fun x : string * (rcourse * (option json * option json)) => fst (snd x)) (sort_by fst keyed) in
   let fields0 := map (fun x : string * (rcourse * (option json * option json)) => snd (snd x)) (sort_by fst keyed) in
   let cmap : list (Z * option nat) :=
     (map (fun cid => (cid, None)) skipped ++ map (fun '(i, c) => (rc_dbid c, Some i)) (combine (seq 0 (List.length courses0)) courses0))%list in
   let* rdata := ok_or (match get "registrations" data with Some v => as_object v | None => None end) 14 in
-  let fix gor (l : list (string * json)) (i : nat) (courses : list rcourse) (acc : list rpart) (q : nat * list nat) (nign : nat)
-    : result (list rpart * list rcourse * (nat * list nat) * nat) :=
-    match l with
-    | [] => ROk (rev acc, courses, q, nign)
-    | (k, reg) :: t =>
-        let* rid := ok_or (parse_u64 k) 15 in
-        (* extract_participant_base_data *)
-        let* rparts := ok_or (match get "parts" reg with Some v => as_object v | None => None end) 16 in
-        let* is_part := match assoc (zstr part_id) rparts with
-                        | Some p => match as_object p with
-                                    | Some _ => let* stz := ok_or (match get "status" p with Some v => as_i64 v | None => None end) 17 in ROk (stz =? 2)%Z
-                                    | None => ROk false end
-                        | None => ROk false end in
-        let* persona := ok_or (match get "persona" reg with Some v => match as_object v with Some _ => Some v | None => None end | None => None end) 18 in
-        let* gn := ok_or (match get "given_names" persona with Some v => as_str v | None => None end) 19 in
-        let* fn := ok_or (match get "family_name" persona with Some v => as_str v | None => None end) 19 in
-        let name := (gn ++ " " ++ fn)%string in
-        if negb is_part then gor t i courses acc q nign else
-        let* d := parse_pcd reg track_id cmap in
-        match (if ign_a then pc_assigned d else None) with
-        | Some ci =>
-            let courses' := modify courses ci (fun c =>
-                {| rc_dbid := rc_dbid c; rc_name := rc_name c; rc_min := rc_min c; rc_max := rc_max c; rc_instr := rc_instr c; rc_fixed := rc_fixed c;
-                   rc_hidden := (rc_hidden c ++ [name])%list;
-                   rc_inv_instr := (match pc_instr d with Some c' => if Nat.eqb c' ci then S (rc_inv_instr c) else rc_inv_instr c | None => rc_inv_instr c end);
-                   rc_inv_att := (match pc_instr d with Some c' => if Nat.eqb c' ci then rc_inv_att c else S (rc_inv_att c) | None => S (rc_inv_att c) end) |}) dflt_c in
-            let q' := match pc_instr d with
-                      | Some c' => if Nat.eqb c' ci then (S (fst q), snd q) else (fst q, (snd q ++ [assigned_penalty ci (pc_choices d) _td])%list)
-                      | None => (fst q, (snd q ++ [assigned_penalty ci (pc_choices d) _td])%list) end in
-            gor t i courses' acc q' (S nign)
-        | None =>
-            match pc_choices d, pc_instr d with
-            | [], None => gor t i courses acc q nign
-            | _, _ =>
-                let courses' := match pc_instr d with
-                                | Some ci => modify courses ci (fun c =>
-                                    {| rc_dbid := rc_dbid c; rc_name := rc_name c; rc_min := rc_min c; rc_max := rc_max c; rc_instr := (rc_instr c ++ [i])%list;
-                                       rc_fixed := rc_fixed c; rc_hidden := rc_hidden c; rc_inv_instr := rc_inv_instr c; rc_inv_att := rc_inv_att c |}) dflt_c
-                                | None => courses end in
-                gor t (S i) courses' ({| rp_dbid := rid; rp_name := name; rp_choices := pc_choices d |} :: acc) q nign
-            end
-        end
-    end in
-  let* (ps, cs, q, nign) := gor (obj_items rdata) 0 courses0 [] (0, []) 0 in
+  let* (ps, cs, q, nign) := gor part_id track_id cmap ign_a _td (obj_items rdata) 0 courses0 [] (0, []) 0 in
   (* adapt_course_for_invisible_participants *)
   let cs' := map adapt_course cs in
   let* eid := ok_or (match get "id" data with Some v => as_u64 v | None => None end) 50 in
-  let* _sn := (match track with Some _ => let* _ := ok_or (match get "shortname" _td with Some v => as_str v | None => None end) 51 in ROk tt | None =>
-               (* the `?` inside then_some is evaluated eagerly in the Rust code *)
-               let* _ := ok_or (match get "shortname" _td with Some v => as_str v | None => None end) 51 in ROk tt end) in
+  (* (track given or not: the `?` inside then_some is evaluated eagerly in the Rust code) *)
+  let* _sn := ok_or (match get "shortname" _td with Some v => as_str v | None => None end) 51 in
   ROk (ps, cs', {| ra_event := eid; ra_track := track_id; ra_part := part_id; ra_qual := if ign_a then Some q else None;
                     ra_ign_courses := List.length skipped; ra_ign_regs := nign; ra_fields := fields0 |}).
 
